@@ -807,7 +807,9 @@ func (db *DB) writeToLSM(b *request) error {
 
 	for i, entry := range b.Entries {
 		var err error
-		if entry.skipVlogAndSetThreshold(db.valueThreshold()) {
+		// In InMemory mode there is no value log (vlog.write is a no-op and b.Ptrs stays empty), so
+		// every value, including one whose size equals the value threshold, goes into the LSM tree.
+		if db.opt.InMemory || entry.skipVlogAndSetThreshold(db.valueThreshold()) {
 			// Will include deletion / tombstone case.
 			err = db.mt.Put(entry.Key,
 				y.ValueStruct{
